@@ -319,8 +319,13 @@ class Facts:
                     rows.append(-n2 - 1)
         # an eliminated atom is an unsigned quantity too: its replacement is >= 0
         for a, r in self.submap().items():
-            if a[0] != "unk":
+            if a[0] != "unk" and not _signed_atom(a):
                 rows.append(r)
+            if a[0] == "alignup":
+                # the eliminated atom keeps its defining bounds:  z <= AlignUp(z, A) <= z + A - 1
+                z = self.apply_sub(a[1])
+                rows.append(r - z)
+                rows.append(z + (a[2] - 1) - r)
         atoms = set()
         for L in rows:
             for a, _ in L.t:
